@@ -95,6 +95,10 @@ structure Quirks where
   noReturnAccepted : Bool := false
   /-- `translate_expression(Subscript)`: a negative constant index passes the bound test (`int(i) < size`) -/
   negIndexAccepted : Bool := false
+  /-- `_replace_types_annotations` copies the element annotation of a `Qlist[T, n]` / `Qmatrix[T, n, m]` without
+  elaborating it: a `Qlist` / `Qmatrix` inside that element annotation reaches the type evaluator unread
+  (`UnknownTypeException`), so the typed assignment `k: T = v` of `bind` is refused for such a declared type -/
+  annNestedContainerUnread : Bool := false
   deriving Repr, DecidableEq, Inhabited
 
 def Quirks.none : Quirks := {}
@@ -140,6 +144,7 @@ def Quirks.ofList (l : List String) : Quirks :=
     charEqZip := l.contains "charEqZip"
     tupleAssignFlat := l.contains "tupleAssignFlat"
     noReturnAccepted := l.contains "noReturnAccepted"
-    negIndexAccepted := l.contains "negIndexAccepted" }
+    negIndexAccepted := l.contains "negIndexAccepted"
+    annNestedContainerUnread := l.contains "annNestedContainerUnread" }
 
 end QV
